@@ -97,14 +97,14 @@ def _explore_chunk(args):
                                 if res.world is not None:
                                     from .real import concretise_script
                                     try:
-                                        k["script"] = concretise_script(res.world, nicer_model(e, [z3.Not(t), kterm], mk))
+                                        k["script"] = concretise_script(res.world, nicer_model(e, [z3.Not(t), kterm] + list(e.uf_axioms), mk))
                                     except Exception as ex2:     # noqa
                                         k["script_error"] = repr(ex2)
                                 rec.setdefault("known", []).append(k)
                             extra.append(z3.Not(kterm))
                         m1 = e.check_cex(*extra)
                         if m1 is not None:
-                            m1 = nicer_model(e, extra, m1)
+                            m1 = nicer_model(e, list(extra) + list(e.uf_axioms), m1)
                             cex = dict(assertion=n, prefix=list(e.trace))
                             if res.world is not None:
                                 from .real import concretise_script
